@@ -88,6 +88,24 @@ func c19ReadRun(c *vf.Case, payloads [][]byte, wire []byte, cuts []int, async, i
 		for feed() {
 		}
 	}
+	// an echoing application: every item is written back with WriteNext exactly as ReadNext / AsyncReadNext handed it
+	// over (the zero-copy slice, not a copy), while further items may already be buffered behind it
+	echo := c.Rng.Chance(1, 3)
+	var echoed []byte
+	doEcho := func(it []byte, i int) {
+		if !echo || c.Failed() {
+			return
+		}
+		if _, err := conn.WriteNext(it); err != nil {
+			c.Failf("echo-write-failed", "%s: WriteNext of the %d-byte item %d just read returned %v", label, len(it), i, err)
+			return
+		}
+		echoed = append(echoed, c19Encode(payloads[i])...)
+		if !bytes.Equal(t.Written, echoed) {
+			c.Failf("echoed-item-differs", "%s: item %d (%d bytes) written back as read: the transport holds %d bytes, the encodings of the items so far are %d bytes (first diff %d)", label, i, len(payloads[i]), len(t.Written), len(echoed), firstDiff(t.Written, echoed))
+		}
+		c.Count("items_echoed_as_read", 1)
+	}
 	got := 0
 	if async {
 		t.DeferReads = c.Rng.Bool()
@@ -99,6 +117,9 @@ func c19ReadRun(c *vf.Case, payloads [][]byte, wire []byte, cuts []int, async, i
 				calls++
 				ierr = e
 				item = append([]byte(nil), it...)
+				if e == nil && calls == 1 && got < len(payloads) && bytes.Equal(it, payloads[got]) {
+					doEcho(it, got)
+				}
 			})
 			for guard := 0; calls == 0 && guard < 1000000; guard++ {
 				if t.Pump() > 0 {
@@ -143,6 +164,7 @@ func c19ReadRun(c *vf.Case, payloads [][]byte, wire []byte, cuts []int, async, i
 				c.Failf("item-differs", "%s: item %d has %d bytes, written payload has %d (first diff %d)", label, got, len(item), len(payloads[got]), firstDiff(item, payloads[got]))
 				return
 			}
+			doEcho(item, got)
 			got++
 		}
 		if !c.Failed() {
